@@ -1,6 +1,7 @@
 //! bgv — property-based testing / fuzzing driver for rust-bindgen (see /verif/DESIGN.md)
 
 mod bg;
+mod cexprs;
 mod cmodel;
 mod corpus;
 mod mutate;
